@@ -105,7 +105,17 @@ def gen_expansion(tier, rng, prefix, count):
         n = cap + 1
         subs = ["D%d,0,1" % (k + 1) for k in range(n)]
         reads = ["R%d" % (k + 1) for k in range(n)]
-        v = ["highwater", "expire", "twobursts", "race", "busy_fire", "race3"][i % 6]
+        v = ["highwater", "expire", "twobursts", "race", "busy_fire", "race3", "precancelled"][i % 7]
+        if v == "precancelled":
+            # on the saturated pool, submissions whose own context is ALREADY done (refused at once), then a live burst:
+            # the refused ones must leave the reservation counter as they found it
+            pre = ["D%d,0,1" % (k + 1) for k in range(cap + 1)] + ["W%d" % cap, "C1", "C2"]
+            dead = ["D%d,%d,1" % (31 + j, 1 + j % 2) for j in range(rng.choice([2, 3]))]
+            live = ["D%d,0,1" % (41 + j) for j in range(2)]
+            ths = [pre + dead + ["/"] + live[:1] + ["/"] + ["R%d" % (k + 1) for k in range(cap + 1)] + ["R%s" % d[1:].split(",")[0] for d in dead] + ["R41"],
+                   ["/", live[1], "/", "R42"], ["/", "K41", "K42", "G1", "/"]]
+            out.append(S("%s%d" % (prefix, i), ths, rnd(tier, rng, 800, 6000), workers=workers, limit=limit, autostart=1, expect_highwater=cap))
+            continue
         if v == "race3":
             # the pool is saturated (cap executors at a closed gate, the queue slot taken): several submitters overshoot the
             # reservation counter at the same time and undo it; whatever the order, nothing more may be started
@@ -150,7 +160,8 @@ def gen_expansion(tier, rng, prefix, count):
             ths = [subs + ["/"] + reads + ["/", "/"] + subs2 + ["/"] + reads2,
                    ["W%d" % cap, "G1", "/", "/"] + fires + ["Z0", "/", "W%d" % (n + cap), "G2", "/"]]
             o = dict(expect_highwater=cap)
-        out.append(S("%s%d" % (prefix, i), ths, rnd(tier, rng, 500, 5000), workers=workers, limit=limit, autostart=1, **o))
+        out.append(S("%s%d" % (prefix, i), ths, rnd(tier, rng, 500, 5000), workers=workers, limit=limit, autostart=1,
+                     lifetime=rng.choice([0, 1, 1]), **o))     # lifetime 1 ns: legal; wall-clock time must not decide anything
     return out
 
 def gen_stop(tier, rng, prefix, count):
@@ -177,6 +188,7 @@ def gen_stop(tier, rng, prefix, count):
         else:
             ths = [["D1", "X", "/", "R1", "X", "S", "T2", "r2"], ["X", "/"]]
             o = dict(workers=1, limit=0, autostart=1)
+        o["lifetime"] = rng.choice([0, 1])
         out.append(S("%s%d" % (prefix, i), ths, dfs(tier, 6000, 80000) if rng.random() < 0.6 else rnd(tier, rng), **o))
     return out
 
@@ -222,12 +234,27 @@ def gen_deferred_start(tier, rng, prefix, count):
                      workers=workers, limit=limit, autostart=0))
     return out
 
+def gen_nilexec(tier, rng, prefix, count):
+    """tasks WITHOUT an executor (NewTask(ctx, nil): legal) among ordinary ones - outside the model (no begin / end
+    accesses to replay), judged by the monitors: accepted, one empty result, Stop returns"""
+    out = []
+    for i in range(count):
+        workers, limit = rng.choice([(1, 0), (2, 0), (1, 1)])
+        ths = [["D1", "D2,0,99", "D3", "/", "R1", "R2", "R3", "/", "X"], ["D11,0,99", "T12,0,99", "/", "R11", "r12", "/"]]
+        if i % 2:
+            ths = [["D1,0,99", "D2", "/", "X", "/", "R1", "R2"], ["T11,0,99", "/", "/", "r11"]]
+        out.append(S("%s%d" % (prefix, i), ths, rnd(tier, rng, 200, 2000), workers=workers, limit=limit, autostart=1, nomodel=1,
+                     lifetime=rng.choice([0, 1])))
+    return out
+
 def gen_c04(tier, rng):
     return (gen_basic(tier, rng, "a", scale(tier, 24, 200), stop=False) + gen_basic(tier, rng, "b", scale(tier, 16, 150), stop=True)
-            + gen_saturated(tier, rng, "s", scale(tier, 8, 60)) + gen_stop(tier, rng, "x", scale(tier, 10, 80)))
+            + gen_saturated(tier, rng, "s", scale(tier, 8, 60)) + gen_stop(tier, rng, "x", scale(tier, 10, 80))
+            + gen_nilexec(tier, rng, "n", scale(tier, 6, 40)))
 
 def gen_c08(tier, rng):
-    return gen_stop(tier, rng, "a", scale(tier, 30, 250)) + gen_basic(tier, rng, "b", scale(tier, 12, 100), stop=True)
+    return gen_stop(tier, rng, "a", scale(tier, 30, 250)) + gen_basic(tier, rng, "b", scale(tier, 12, 100), stop=True) \
+        + gen_nilexec(tier, rng, "n", scale(tier, 6, 40))
 
 def gen_c11(tier, rng):
     return gen_expansion(tier, rng, "a", scale(tier, 24, 200)) + gen_basic(tier, rng, "b", scale(tier, 10, 80), stop=False, cancels=False)
